@@ -81,6 +81,16 @@ def handle (j : Json) : R Json := do
     let rs := evalPodModel Generated.tables (boolD j "relax") ⟨l, v⟩ p
     return Json.mkObj [("results", Json.arr ((revs.zip rs).map (fun (r, x) =>
       (jresult x).setObjVal! "rev" (jstr (revName r)))).toArray)]
+  | "evalSubset" =>
+    -- an evaluator built from the shipped checks whose ids are listed (policy.NewEvaluator on a subset of DefaultChecks())
+    let p ← pod (← fld j "pod")
+    let l ← level (← fld j "level")
+    let v ← ver (← fld j "version")
+    let keep ← arrOf str (← fld j "keep")
+    let revs := (populate (shipped.filter (fun c => keep.contains c.id))).evaluate l v
+    let rs := revs.map (fun r => runRev Generated.tables (boolD j "relax") r p)
+    return Json.mkObj [("results", Json.arr ((revs.zip rs).map (fun (r, x) =>
+      (jresult x).setObjVal! "rev" (jstr (revName r)))).toArray)]
   | "stdEval" =>
     let p ← pod (← fld j "pod")
     let l ← level (← fld j "level")
